@@ -485,7 +485,7 @@ func runCase(c *Case) (msg string, st runStats) {
 				return fmt.Sprintf("%s: a panic escaped InstantiateModule: %v", where(), escaped), st
 			}
 			if s.Start == startExport && want != nil && want.Kind == "exit" && want.Code == 0 {
-				want = nil // documented: _start exiting with 0 is success
+				want = nil       // documented: _start exiting with 0 is success
 				sm.closed = true // InstantiateModule closes the module whenever _start ended with an error value
 			}
 			if d := matches(ierr, want); d != "" {
@@ -545,7 +545,7 @@ func runCase(c *Case) (msg string, st runStats) {
 			// call on the same function object reaches the same depth again.
 			key := fmt.Sprintf("%d/%d/%x", s.Inst, s.Fn, script)
 			if prev, ok := recFrames[key]; ok {
-				lbl("recursion-repeated-on-same-function-object")
+				lbl("recursion-repeated-on-same-function-object:" + c.Engine)
 				if prev != frames {
 					return fmt.Sprintf("%s: this stack-exhausting call ran %d recursion steps; the identical call on the same function object earlier in the history ran %d", where(), frames, prev), st
 				}
